@@ -622,6 +622,7 @@ pub fn check_drop(acc: &mut Acc, c: &DropCase) {
                 return;
             }
             acc.bump("incomplete_merges_rejected", 1);
+            refused_left_as_right(acc, c, &mut g, gids[0], &ctx);
             match crate::parse::parse_missed(&msg) {
                 Some(named) => {
                     let mut named = named;
@@ -637,6 +638,47 @@ pub fn check_drop(acc: &mut Acc, c: &DropCase) {
                     if !missed.iter().all(|x| nums.contains(x)) {
                         acc.fail("C12", "drop:err-does-not-name-missed", format!("merge() returned Err but the message does not name the missed vertices {missed:?}: {msg:?} {ctx}"), replay);
                     }
+                }
+            }
+        }
+    }
+}
+
+/// After a refused merge the left graph (whatever the refusal left in it) gets a stray vertex of its
+/// own and is used as the RIGHT graph of a merge into a fresh graph: the property holds for it as
+/// for any other right graph. The reference is the public view of that graph: what keys() lists
+/// and kids() leads to.
+fn refused_left_as_right(acc: &mut Acc, c: &DropCase, g: &mut Sodg<16>, root: usize, ctx: &str) {
+    let replay = json!({"engine": "treegen", "property": "C12", "case": c});
+    let r = guarded(|| {
+        g.add(60);
+        let keys = crate::real::keys_sorted(g);
+        let mut reach = BTreeSet::new();
+        let mut todo = vec![root];
+        while let Some(v) = todo.pop() {
+            if keys.contains(&v) && reach.insert(v) {
+                todo.extend(g.kids(v).map(|(_, t)| *t));
+            }
+        }
+        let missed: Vec<usize> = keys.iter().copied().filter(|v| !reach.contains(v)).collect();
+        let mut y: Sodg<16> = Sodg::empty(64);
+        y.add(0);
+        (missed, y.merge(g, 0, root).map_err(|e| format!("{e:#}")))
+    });
+    acc.bump("refused_left_graphs_merged_as_right_graphs", 1);
+    match r {
+        Err(e) => acc.fail("C12", "drop:panic-after-refusal", format!("after a refused merge, merging the left graph (plus a stray vertex ν60) into a fresh graph panicked: {e} {ctx}"), replay),
+        Ok((missed, Ok(()))) => {
+            if !missed.is_empty() {
+                acc.fail("C12", "drop:ok-although-vertices-missed-after-refusal", format!("after a refused merge the left graph (plus a stray vertex) was merged as the right graph into a fresh graph: merge() returned Ok although its present vertices {missed:?} cannot be reached from ν{root} {ctx}"), replay);
+            }
+        }
+        Ok((missed, Err(msg))) => {
+            if let Some(mut named) = crate::parse::parse_missed(&msg) {
+                named.sort_unstable();
+                named.dedup();
+                if !missed.is_empty() && named != missed {
+                    acc.fail("C12", "drop:err-names-wrong-vertices-after-refusal", format!("after a refused merge the left graph (plus a stray vertex) was merged as the right graph into a fresh graph: Err names {named:?} but the vertices missed are {missed:?}: {msg:?} {ctx}"), replay);
                 }
             }
         }
@@ -695,7 +737,7 @@ pub fn run_c12(tier: &str) -> Outcome {
             machinery.push(format!("vacuous run: situation '{k}' never occurred"));
         }
     }
-    let rule = format!("every right graph = labelled tree of <= {hmax} vertices (every data placement) + every combination of up to 3 extras out of {{isolated vertex, isolated vertex with data, isolated vertex whose data was read, detached 2-vertex subtree}}, the tree built on fresh slots and on a slot recycled from a collected vertex, `left` empty or already holding the bytes the root brings (a retried merge), an extra vertex on id 0, the tree's data unread or read before the merge (all but one), `right` = every node of the tree (so also roots that are not the graph's root), every left tree of <= {gmax} vertices and every `left`. Oracle: Ok iff the reference says every present vertex of the right graph is reachable from `right`, and then every vertex of the tree has a present image at the end of the same labelled path from `left`; otherwise Err whose text names exactly the unreachable present vertices. distinct_nontrivial = distinct (left, right graph, left, right) cases");
+    let rule = format!("every right graph = labelled tree of <= {hmax} vertices (every data placement) + every combination of up to 3 extras out of {{isolated vertex, isolated vertex with data, isolated vertex whose data was read, detached 2-vertex subtree}}, the tree built on fresh slots and on a slot recycled from a collected vertex, `left` empty or already holding the bytes the root brings (a retried merge), an extra vertex on id 0, the tree's data unread or read before the merge (all but one), `right` = every node of the tree (so also roots that are not the graph's root), every left tree of <= {gmax} vertices and every `left`. Oracle: Ok iff the reference says every present vertex of the right graph is reachable from `right`, and then every vertex of the tree has a present image at the end of the same labelled path from `left`; otherwise Err whose text names exactly the unreachable present vertices; after every refusal the left graph, plus a stray vertex, is itself merged as the right graph into a fresh graph under the same oracle (reference: its keys()/kids()). distinct_nontrivial = distinct (left, right graph, left, right) cases");
     super::outcome("C12", tier, "exploration", &rule, acc, true, json!({}), t0.elapsed().as_secs_f64(), vec!["the missed vertices are read from the ν<id> tokens after the word 'missed' in the error text; without such tokens the check only demands that every missed id occurs in the message".to_string()], machinery)
 }
 
